@@ -7,6 +7,7 @@
 -/
 import Crs.Update
 import CrsProofs.Lines
+import Crs.Cli
 namespace Crs.Props
 open Crs Crs.Update
 
@@ -193,5 +194,50 @@ example :
     parseRuleId "942100-chain".toList = .error .diag ∧ parseRuleId "942100.raa".toList = .error .diag ∧
     parseRuleId "942100-chain99999999999999999999".toList = .error .diag := by
   decide
+
+/-- **C18 (`--all` reads file names with the same grammar).** Whatever name the walk of `update --all` /
+    `compare --all` meets: it is taken for a rule file exactly when it is an accepted argument, with the same id and
+    offset; a name whose offset is above 255 ends the walk with a failure; every other name is skipped. -/
+theorem C18_all_same_grammar (name : Bytes) :
+    (∀ id k, Cli.ruleOfFileName name = some (some (id, k)) →
+        ∃ r, parseRuleId name = .ok r ∧ r.id = id ∧ r.chainOffset = k ∧ k ≤ 255) ∧
+    (Cli.ruleOfFileName name = some none → parseRuleId name = .error .diag) ∧
+    (Cli.ruleOfFileName name = none → parseRuleId name = .error .diag) := by
+  unfold Cli.ruleOfFileName parseRuleId
+  by_cases h6 : (!((name.take 6).length == 6 && (name.take 6).all isDigit)) = true
+  · simp only [h6, if_true]
+    exact ⟨fun _ _ h => by simp at h, fun h => by simp at h, fun _ => trivial⟩
+  · have h6' : (!((name.take 6).length == 6 && (name.take 6).all isDigit)) = false := by simpa using h6
+    simp only [h6', Bool.false_eq_true, if_false]
+    cases hs : splitChain (name.drop 6) with
+    | mk offs rest' =>
+      simp only
+      by_cases hr : (!(rest'.isEmpty || rest' == raExt)) = true
+      · simp only [hr, if_true]
+        exact ⟨fun _ _ h => by simp at h, fun h => by simp at h, fun _ => trivial⟩
+      · have hr' : (!(rest'.isEmpty || rest' == raExt)) = false := by simpa using hr
+        simp only [hr', Bool.false_eq_true, if_false]
+        cases offs with
+        | none =>
+          simp only
+          refine ⟨?_, fun h => by simp at h, fun h => by simp at h⟩
+          intro id k h
+          simp only [Option.some.injEq, Prod.mk.injEq] at h
+          obtain ⟨rfl, rfl⟩ := h
+          exact ⟨_, rfl, rfl, rfl, by omega⟩
+        | some ds =>
+          simp only
+          by_cases hb : digitsVal ds > 255
+          · simp only [hb, if_true]
+            exact ⟨fun _ _ h => by simp at h, fun _ => trivial, fun h => by simp at h⟩
+          · simp only [hb, if_false]
+            refine ⟨?_, fun h => by simp at h, fun h => by simp at h⟩
+            intro id k h
+            simp only [Option.some.injEq, Prod.mk.injEq] at h
+            obtain ⟨rfl, rfl⟩ := h
+            exact ⟨_, rfl, rfl, rfl, by omega⟩
+
+example : Cli.ruleOfFileName b!"942100-chain256.ra" = some none ∧ Cli.ruleOfFileName b!"942100-chain255.ra" = some (some (b!"942100", 255))
+    ∧ Cli.ruleOfFileName b!"942100-yaml" = none := by decide
 
 end Crs.Props
